@@ -12,6 +12,7 @@
 (* granularity or the address continuity changed.                                                     *)
 EXTENDS CodeWriter, TLC
 CONSTANTS MaxStmts, Segs, MaxN, MaxAddr, Cpus   \* Cpus: set of [id, gran] records
+CONSTANTS MaxSave, BinChunk, Dev                 \* used by the family machine (SpecFam) only
 
 VARIABLES w, act, cpu, pc, emitted, nst, closed, entry, stk
 vars == <<w, act, cpu, pc, emitted, nst, closed, entry, stk>>
@@ -82,6 +83,104 @@ End(e) ==
   /\ entry' = e /\ closed' = TRUE
   /\ UNCHANGED <<act, cpu, pc, emitted, nst, stk>>
 
+\* ---- statements that change the output context implicitly (SpecFam) ------------------------------------
+\* The handlers below set ActPC / MomCPU / PCs and the DontPrint flag; as.c WriteCode then does
+\*   DontPrint => NewRecord(ProgCounter() + CodeLen)      else WriteBytes (nothing when CodeLen = 0).
+\* AfterHandler is that tail of WriteCode for a handler that left DontPrint = dp in context (c, s), new counter np.
+AfterHandler(dp, c, s, np) == IF dp THEN NewRecord(w, c.id, s, c.gran, np) ELSE w
+Stmt == ~closed /\ nst < MaxStmts /\ nst' = nst + 1
+
+\* SAVE: pushes processor type and active segment (asmallg.c CodeSAVE); nothing reaches the writer
+Save ==
+  /\ Stmt /\ Len(stk) < MaxSave
+  /\ stk' = <<[act |-> act, cpu |-> cpu]>> \o stk
+  /\ UNCHANGED <<w, act, cpu, pc, emitted, closed, entry>>
+\* RESTORE (asmallg.c CodeRESTORE): a different saved segment => ActPC := it, DontPrint := True; a different saved
+\* CPU => SetCPUCore (DontPrint := True); the segment is NOT forced back to CODE (unlike the CPU statement).
+\* Dev = "restore_noflag" is the deliberately wrong handler (segment restored without the flag) that the invariants
+\* must reject (CodeWriter_MCFam_dev_restore.cfg).
+RestoreFlag(s) == IF Dev = "restore_noflag" THEN s.cpu # cpu ELSE (s.act # act \/ s.cpu # cpu)
+Restore ==
+  /\ Stmt /\ stk # <<>>
+  /\ LET s == Head(stk) IN
+     /\ w' = AfterHandler(RestoreFlag(s), s.cpu, s.act, pc[s.act])
+     /\ act' = s.act /\ cpu' = s.cpu
+  /\ stk' = Tail(stk)
+  /\ UNCHANGED <<pc, emitted, closed, entry>>
+\* ORG a (CodeORG_Core): the flag is set only when the address really changes
+OrgF(a) ==
+  /\ Stmt
+  /\ w' = AfterHandler(a # pc[act], cpu, act, a)
+  /\ pc' = [pc EXCEPT ![act] = a]
+  /\ UNCHANGED <<act, cpu, emitted, closed, entry, stk>>
+\* RORG d (CodeRORG): PCs += d, flag always (also for d = 0)
+RorgTo(a) ==
+  /\ Stmt /\ a <= MaxAddr
+  /\ w' = AfterHandler(TRUE, cpu, act, a)
+  /\ pc' = [pc EXCEPT ![act] = a]
+  /\ UNCHANGED <<act, cpu, emitted, closed, entry, stk>>
+\* ALIGN n (CodeALIGN, one argument): CodeLen = gap, DontPrint = (gap # 0)
+Gap(n) == (n - (pc[act] % n)) % n
+Align(n) ==
+  /\ Stmt /\ pc[act] + Gap(n) <= MaxAddr
+  /\ w' = AfterHandler(Gap(n) # 0, cpu, act, pc[act] + Gap(n))
+  /\ pc' = [pc EXCEPT ![act] = @ + Gap(n)]
+  /\ UNCHANGED <<act, cpu, emitted, closed, entry, stk>>
+\* ALIGN n, fill: the gap is DATA (memset of the code buffer, DontPrint = False)
+AlignFill(n) ==
+  /\ Stmt /\ pc[act] + Gap(n) <= MaxAddr
+  /\ LET k == nst + 1  g == Gap(n) IN
+     /\ w' = WriteBytes(w, Cells(k, g, Gran), cpu.id, act, Gran, pc[act])
+     /\ emitted' = emitted \cup {[seg |-> act, addr |-> pc[act] * Gran + j - 1, id |-> <<k, j>>] : j \in 1..(g * Gran)}
+     /\ pc' = [pc EXCEPT ![act] = @ + g]
+  /\ UNCHANGED <<act, cpu, closed, entry, stk>>
+\* name STRUCT / fields / ENDSTRUCT as one step: the body lives in StructSeg (WriteCode: nothing reaches the
+\* writer while ActPC = StructSeg); ENDSTRUCT: ActPC := StructSaveSeg, CodeLen := 0, DontPrint := True
+StructBlock ==
+  /\ Stmt
+  /\ w' = AfterHandler(TRUE, cpu, act, pc[act])
+  /\ UNCHANGED <<act, cpu, pc, emitted, closed, entry, stk>>
+\* BINCLUDE of n bytes (CodeBINCLUDE; byte-granular target): WriteBytes per chunk of at most BinChunk (256 in the
+\* code) bytes while PCs advances, then PCs := old, CodeLen := n, DontPrint := True  =>  NewRecord(old + n)
+RECURSIVE BinWrite(_, _, _, _, _)
+BinWrite(ww, k, done, rest, p) ==
+  IF rest = 0 THEN ww
+  ELSE LET c == IF rest <= BinChunk THEN rest ELSE BinChunk
+           cells == [j \in 1..c |-> [k |-> "d", id |-> <<k, done + j>>]]
+       IN BinWrite(WriteBytes(ww, cells, cpu.id, act, 1, p), k, done + c, rest - c, p + c)
+Binclude(n) ==
+  /\ Stmt /\ Gran = 1 /\ pc[act] + n <= MaxAddr
+  /\ LET k == nst + 1 IN
+     /\ w' = NewRecord(BinWrite(w, k, 0, n, pc[act]), cpu.id, act, 1, pc[act] + n)
+     /\ emitted' = emitted \cup {[seg |-> act, addr |-> pc[act] + j - 1, id |-> <<k, j>>] : j \in 1..n}
+     /\ pc' = [pc EXCEPT ![act] = @ + n]
+  /\ UNCHANGED <<act, cpu, closed, entry, stk>>
+\* CPU c as the statement (CodeCPU): SetCPUCore (flag) and SetNSeg(SegCode) - also for the CPU already selected
+CpuStmt(c) ==
+  /\ Stmt
+  /\ w' = AfterHandler(TRUE, c, 1, pc[1])
+  /\ cpu' = c /\ act' = 1
+  /\ UNCHANGED <<pc, emitted, closed, entry, stk>>
+\* SEGMENT s (SetNSeg) with the segment that is already active (and used): nothing happens
+SegmentStmt(s) ==
+  /\ Stmt
+  /\ w' = AfterHandler(s # act, cpu, s, pc[s])
+  /\ act' = s
+  /\ UNCHANGED <<cpu, pc, emitted, closed, entry, stk>>
+
+NextFam == \/ \E n \in {1, MaxN} : Emit(n)
+           \/ Reserve(1)
+           \/ \E a \in {pc[act], pc[act] + 1, 0} : OrgF(a)
+           \/ \E a \in {pc[act], pc[act] + 1} \cup (IF pc[act] > 0 THEN {pc[act] - 1} ELSE {}) : RorgTo(a)
+           \/ Align(4) \/ AlignFill(4)
+           \/ StructBlock
+           \/ \E n \in {0, 1, BinChunk + 1} : Binclude(n)
+           \/ \E s \in Segs : SegmentStmt(s)
+           \/ \E c \in Cpus : CpuStmt(c)
+           \/ Save \/ Restore
+           \/ \E e \in {<<>>, <<5>>} : End(e)
+SpecFam == Init /\ [][NextFam]_vars
+
 Next == \/ \E n \in 1..MaxN : Emit(n)
         \/ \E n \in 0..2 : Reserve(n)
         \/ \E a \in {0, 3, MaxAddr - 2} : Org(a)
@@ -101,6 +200,13 @@ EntryKept == closed => Parse(w.file).entries = entry
 \* each record's header describes the bytes in it
 HeadersTruthful == closed => LET p == Parse(w.file) IN
    \A r \in 1..Len(p.recs) : \A c \in Cpus : p.recs[r].cpu = c.id => p.recs[r].gran = c.gran
+\* the record machine: after every statement the open record is the one the NEXT data byte belongs to - its header
+\* names the current CPU, segment and granularity, and start + length is the current load address.  Hence the
+\* following data statement lands in a fresh record exactly when segment, CPU, granularity or continuity changed.
+OpenRecordTracksCounter == ~closed =>
+   LET h == w.file[w.recPos]  st == w.file[w.recPos + 1] IN
+   /\ h.k = "hdr" /\ h.cpu = cpu.id /\ h.seg = act /\ h.gran = Gran
+   /\ st.k = "start" /\ st.v * Gran + w.lenSoFar = pc[act] * Gran
 \* the writer never lets the open record exceed the length field
 LenFits == w.lenSoFar <= MaxRecLen
 \* the buffer never reaches its capacity (memcpy into CodeBuffer stays in bounds)
